@@ -362,14 +362,164 @@ impl Space for NsDocs {
     }
 }
 
+// ---- stage dtd-ns: namespace declarations that come from (or are merely declared in) the DTD; differential, no reference
+// model: an ATTLIST declaration of xmlns / xmlns:p for element e with default kind K, the attribute not written, must give
+// the document the same names, in-scope sets and query answers as the equivalent document without a DTD (#IMPLIED and
+// #REQUIRED add nothing; a default value / #FIXED value equals the declaration written on every e).
+struct DtdNs {
+    cases: Vec<(String, String)>,
+}
+
+fn dtd_ns_cases() -> Vec<(String, String)> {
+    let mut v = vec![];
+    let bodies: [(&str, &str); 4] = [
+        ("<p:r xmlns:p=\"u1\" xmlns=\"u1\"><e{}><p:c k=\"1\" p:k=\"2\"/><c/></e><p:e{}/><e{}/></p:r>", "e"),
+        ("<r xmlns:p=\"u1\"><p:e{}><p:c/><e{}><p:c/></e></p:e><e{}/></r>", "e"),
+        ("<r xmlns=\"u1\" xmlns:p=\"u2\"><a><e{}><c p:k=\"v\"/></e></a><e{}><e{}/></e></r>", "e"),
+        ("<r><e{}><p:c xmlns:p=\"u1\"/><c/></e><e{} xmlns:p=\"u1\"><p:c/></e><e{}/></r>", "e"),
+    ];
+    for (body, _el) in bodies {
+        let root = if body.starts_with("<p:r") { "p:r" } else { "r" };
+        for att in ["xmlns:p", "xmlns", "xmlns:q"] {
+            for (kind, eff) in [("#IMPLIED", None), ("#REQUIRED", None), ("\"u2\"", Some("u2")), ("#FIXED \"u2\"", Some("u2")), ("\"u1\"", Some("u1"))] {
+                let with_dtd = format!("<!DOCTYPE {} [<!ATTLIST e {} CDATA {}>]>{}", root, att, kind, body.replace("{}", ""));
+                let written = match eff {
+                    Some(u) => format!(" {}=\"{}\"", att, u),
+                    None => String::new(),
+                };
+                // a p:e element is not of type e: the declaration does not apply to it
+                let mut plain = String::new();
+                let mut rest = body;
+                while let Some(i) = rest.find("{}") {
+                    let head = &rest[..i];
+                    let is_e = head.ends_with("<e");
+                    plain.push_str(head);
+                    if is_e {
+                        plain.push_str(&written);
+                    }
+                    rest = &rest[i + 2..];
+                }
+                plain.push_str(rest);
+                // skip a default that would collide with a declaration written on the element
+                if eff.is_some() && plain.contains(&format!("{}=\"{}\" {}=", att, eff.unwrap(), att)) {
+                    continue;
+                }
+                v.push((with_dtd, plain));
+            }
+        }
+    }
+    v
+}
+
+fn dtd_ns_observe(text: &str) -> Result<String, String> {
+    let (p, doc) = crate::obs::parse_dom(text, true);
+    let doc = match (p, doc) {
+        (crate::obs::Parsed::Complete, Some(d)) => d,
+        (p, _) => return Err(format!("not accepted: {:?}", p)),
+    };
+    let mut out = String::new();
+    fn walk(n: &XmlNode, out: &mut String) {
+        if let XmlNode::Element(el) = n {
+            out.push_str(&format!("elem {:?}", n.as_expanded_name().map(|x| x.map(|(l, _p, u)| (l, u))).map_err(|e| format!("{:?}", e))));
+            let mut ns: Vec<(String, String)> = match el.in_scope_namespace() {
+                Ok(l) => l.iter().map(|a| (a.node_name(), a.node_value().ok().flatten().unwrap_or_default())).collect(),
+                Err(e) => vec![("error".into(), format!("{:?}", e))],
+            };
+            ns.retain(|x| !(x.1.is_empty()));
+            ns.sort();
+            out.push_str(&format!(" ns={:?}", ns));
+            let mut at: Vec<String> = vec![];
+            if let Some(m) = n.attributes() {
+                for a in m.iter() {
+                    let nm = a.node_name();
+                    if nm == "xmlns" || a.as_node().as_expanded_name().ok().flatten().map(|x| x.1.as_deref() == Some("xmlns")).unwrap_or(false) {
+                        continue;
+                    }
+                    at.push(format!("{:?}", a.as_node().as_expanded_name().map(|x| x.map(|(l, _p, u)| (l, u))).map_err(|e| format!("{:?}", e))));
+                }
+            }
+            at.sort();
+            out.push_str(&format!(" attrs={:?}\n", at));
+        }
+        for c in n.child_nodes().iter() {
+            walk(&c, out);
+        }
+    }
+    let r = guard(|| {
+        let mut o = String::new();
+        if let Ok(root) = xml_dom::Document::document_element(&doc) {
+            walk(&root.as_node(), &mut o);
+        }
+        o
+    });
+    match r {
+        Ok(o) => out.push_str(&o),
+        Err(p) => return Err(format!("panic {}", p)),
+    }
+    let b: Bindings = vec![(Some("x".to_string()), "u1".to_string()), (Some("y".to_string()), "u2".to_string())];
+    for q in [
+        "count(//x:*)", "count(//y:*)", "count(//*[namespace-uri()=''])", "count(//x:e)", "count(//y:e)", "count(//e)", "count(//x:c)", "count(//y:c)", "count(//c)",
+        "count(//@x:k)", "count(//@y:k)", "count(//@k)", "count(//*[namespace::p='u1'])",
+        "count(//*[namespace::p='u2'])", "count(//*[namespace::*[name()='']='u2'])", "count(//*[namespace::*[name()='']='u1'])", "string(namespace-uri((//e)[1]))",
+        "string(namespace-uri((//*[local-name()='e'])[last()]))", "count(//e/x:c)", "count(//x:e/x:c)", "count(//y:e//x:c)", "count(//y:e//y:c)",
+    ] {
+        out.push_str(&format!("{} = {:?}\n", q, run_query(&doc, q, &b, None)));
+    }
+    Ok(out)
+}
+
+impl Space for DtdNs {
+    fn len(&self) -> u64 {
+        self.cases.len() as u64
+    }
+    fn describe(&self, idx: u64) -> String {
+        self.cases[idx as usize].0.clone()
+    }
+    fn run(&self, idx: u64, sink: &mut Sink) {
+        let (with_dtd, plain) = &self.cases[idx as usize];
+        sink.count("states", 1);
+        sink.count("transitions", 2);
+        if idx % 20 == 1 {
+            sink.sample(|| format!("{}  ==  {}", with_dtd, plain));
+        }
+        let a = dtd_ns_observe(with_dtd);
+        let b = dtd_ns_observe(plain);
+        sink.count("validated", 1);
+        sink.count("nontrivial", 1);
+        let kind = if with_dtd.contains("#IMPLIED") {
+            "implied"
+        } else if with_dtd.contains("#REQUIRED") {
+            "required"
+        } else if with_dtd.contains("#FIXED") {
+            "fixed"
+        } else {
+            "default"
+        };
+        let att = if with_dtd.contains("ATTLIST e xmlns:p") { "xmlns:p" } else if with_dtd.contains("ATTLIST e xmlns:q") { "xmlns:q" } else { "xmlns" };
+        match (a, b) {
+            (Ok(x), Ok(y)) => {
+                if x != y {
+                    let first = x.lines().zip(y.lines()).find(|(l, r)| l != r).map(|(l, r)| format!("{}   <>   {}", l, r)).unwrap_or_default();
+                    report(sink, format!("dtd-ns/differs/{}/{}", att, kind), "a namespace declaration attribute declared in the DTD changes names / scopes / query answers against the equivalent document without a DTD", format!("{}\nagainst\n{}", with_dtd, plain), y, format!("first difference: {}\n{}", first, x));
+                }
+            }
+            (Err(m), Ok(_)) => report(sink, format!("dtd-ns/rejected/{}/{}", att, kind), "the document with the ATTLIST declaration is not usable", with_dtd.clone(), "accepted".into(), m),
+            (_, Err(m)) => report(sink, format!("dtd-ns/plain-rejected/{}/{}", att, kind), "the equivalent document is not usable", plain.clone(), "accepted".into(), m),
+        }
+    }
+}
+
 impl Check for C10C {
     fn id(&self) -> &'static str {
         "C10"
     }
     fn stages(&self, _tier: Tier) -> Vec<String> {
-        vec!["ns-docs".into()]
+        vec!["ns-docs".into(), "dtd-ns".into()]
     }
-    fn prepare(&self, _stage: &str, tier: Tier, _input: &[String]) -> Box<dyn Space> {
+    fn prepare(&self, stage: &str, tier: Tier, _input: &[String]) -> Box<dyn Space> {
+        if stage == "dtd-ns" {
+            return Box::new(DtdNs { cases: dtd_ns_cases() });
+        }
         Box::new(NsDocs { assigns: assignments(tier.pick(3, 4)) })
     }
     fn case_cap(&self, tier: Tier) -> f64 {
